@@ -9,6 +9,16 @@
 // order, notes) equal across the two forms; real Check verdict (error code) equal across the forms; the loader
 // model's table (driver `loadv`) equal to the real GetAST for BOTH forms. A malformed stream (1-3 byte mutations of
 // the printed forms) compares model and real tree / error only.
+//
+// NOTES are part of the SURFACE FORM, not of the tree (C13: "annotation notes" is one of the re-spellings, the AST is
+// compared "comments aside"): every annotation of every form draws its own note spelling from {no note, `-` only,
+// `-` + blanks, a plain text, a text holding `-` `//` `/*` `{` `}` `"` `#` UTF-8 …, (multi-line form) a note that
+// starts on a later line / spans lines / is only line breaks}; un-annotated nodes marked `bare` carry a NOTE-ONLY
+// annotation (`// text`, `/* text */`). Every tree is printed three times: form A, form A0 = form A with every note
+// removed (same layout otherwise: the texts differ in the notes only) and an independent form B. Compared at property
+// level, A0 against A and B against A: the AST with the Comment fields dropped, the Check verdict, the Validate
+// verdicts of the tree's own value and of mutated documents, the bytes of Example(). The Comment fields themselves are
+// compared (correspondence level) with the written note, trimmed (inline: up to a `#`).
 package c13tree
 
 import (
@@ -16,8 +26,11 @@ import (
 	"fmt"
 	"math/rand"
 	"strings"
+	"sync"
+	"sync/atomic"
 
 	jlib "github.com/jsightapi/jsight-schema-go-library"
+	jdoc "github.com/jsightapi/jsight-schema-go-library/formats/json"
 	"github.com/jsightapi/jsight-schema-go-library/notations/jschema"
 
 	"verifharness/vh"
@@ -40,6 +53,7 @@ type node struct {
 	keys []string
 	kids []*node
 	an   *ann
+	bare bool // main stream only (an == nil): the forms write a NOTE-ONLY annotation here (`// text`)
 }
 
 var keyPool = []string{"a", "b", "id", "name", "x1", "k\\u0041", "z z", "ключ", "q\\\"q"}
@@ -152,15 +166,18 @@ func countAnn(n *node) int {
 // ---- surface forms ----
 
 type style struct {
-	r       *rand.Rand
+	r  *rand.Rand
+	nr *rand.Rand // the notes' own generator (nil: the form is printed WITHOUT notes); never touches r, so that
+	// a form and its note-free twin draw the same layout
 	nl      []string // line ends to draw from
 	indent  string
 	comment int // percent of line breaks that get a comment
 	feat    map[string]bool
+	noteOf  map[*node]string // the Comment the written note denotes (trimmed; inline: up to a '#')
 }
 
-func newStyle(r *rand.Rand) *style {
-	s := &style{r: r, feat: map[string]bool{}}
+func newStyle(r, nr *rand.Rand) *style {
+	s := &style{r: r, nr: nr, feat: map[string]bool{}, noteOf: map[*node]string{}}
 	switch r.Intn(5) {
 	case 0:
 		s.nl = []string{"\n"}
@@ -202,8 +219,98 @@ func (s *style) brk(depth int) string {
 	return sb.String()
 }
 
-func (s *style) annText(a *ann) (string, bool) {
+// note texts holding the bytes that mean something elsewhere in a schema
+var trickyNotes = []string{"a - b", "- x", "-", "--", "x {y}", "{min: 1}", "{", "}", "}{", "// {min: 1}", "// x", "//", "/* x", "/ *", "* /",
+	"*", "a*b", "**", "\"q", "\"a\": 1,", "[1, 2]", "]", "@t | @u", "\u00e9", "\u043a\u043b\u044e\u0447 - \u0437\u043d\u0430\u0447\u0435\u043d\u0438\u0435", "\u65e5\u672c\u8a9e", "a:b,c", "\\n", "x\ty", "a  b",
+	"a # b", "#", "# c", "a#", "optional: true", "/"}
+var inlineOnlyNotes = []string{"x */ y", "*/", "/* x */"}
+var bareNotes = []string{"note", "first id", "a - b", "x {y}", "\u00e9", "1", "- x", "-", "a // b", "\u65e5\u672c", "a: b", "x # c"}
+
+func trimNote(s string) string { return strings.Trim(s, " \t\r\n") }
+
+// what the scanner takes for the note text of an INLINE annotation: a '#' starts a user comment
+func cutInline(s string) string {
+	if p := strings.IndexByte(s, '#'); p >= 0 {
+		return s[:p]
+	}
+	return s
+}
+
+func (s *style) nblanks(orNone bool) string {
+	if orNone {
+		return []string{"", " ", "  ", "\t", " \t "}[s.nr.Intn(5)]
+	}
+	return []string{" ", "  ", "\t", " \t ", "   "}[s.nr.Intn(5)]
+}
+
+// noteText: what stands between the rule object (and the blanks behind it) and the end of the annotation. All draws
+// from s.nr.
+func (s *style) noteText(n *node, multi bool) string {
+	if s.nr == nil {
+		return ""
+	}
+	nr := s.nr
+	nl := func() string { return s.nl[nr.Intn(len(s.nl))] }
+	var body string // everything behind the dash
+	k := nr.Intn(100)
+	if !multi && k >= 90 {
+		k = 18 + nr.Intn(30)
+	}
+	switch {
+	case k < 18:
+		s.feat["note-none"] = true
+		return ""
+	case k < 33:
+		s.feat["note-dash-only"] = true
+	case k < 48:
+		body = s.nblanks(false)
+		s.feat["note-dash-blanks"] = true
+	case k < 64:
+		t := n.an.note
+		if t == "" {
+			t = notePool[nr.Intn(len(notePool))]
+		}
+		body = s.nblanks(true) + t + s.nblanks(true)
+		s.feat["note"] = true
+	case k < 90:
+		pool := trickyNotes
+		if !multi && nr.Intn(8) == 0 {
+			pool = inlineOnlyNotes
+		}
+		body = s.nblanks(true) + pool[nr.Intn(len(pool))] + s.nblanks(true)
+		s.feat["note-tricky"] = true
+	default: // multi-line form only: line breaks behind the dash
+		switch nr.Intn(4) {
+		case 0:
+			body = nl() + s.nblanks(true)
+			s.feat["note-dash-linebreak-only"] = true
+		case 1:
+			body = s.nblanks(true) + nl() + s.nblanks(true) + notePool[nr.Intn(len(notePool))] + s.nblanks(true)
+			s.feat["note-on-later-line"] = true
+		case 2:
+			body = s.nblanks(true) + notePool[nr.Intn(len(notePool))] + nl() + s.nblanks(true) + trickyNotes[nr.Intn(len(trickyNotes))] + nl()
+			s.feat["note-spans-lines"] = true
+		default:
+			body = s.nblanks(true) + nl() + nl() + s.nblanks(true)
+			s.feat["note-dash-linebreak-only"] = true
+		}
+	}
+	if multi {
+		s.noteOf[n] = trimNote(body)
+	} else {
+		s.noteOf[n] = trimNote(cutInline(body))
+	}
+	if strings.Contains(body, "#") {
+		s.feat["note-with-#"] = true
+	}
+	return "-" + body
+}
+
+// annText: the annotation of n (a rule object and perhaps a note; for a `bare` node a note-only annotation, which the
+// note-free twin of a form leaves out altogether: it returns "")
+func (s *style) annText(n *node) (string, bool) {
 	r := s.r
+	a := n.an
 	multi := r.Intn(2) == 0
 	bl := func() string {
 		if multi && r.Intn(3) == 0 {
@@ -215,9 +322,31 @@ func (s *style) annText(a *ann) (string, bool) {
 	var sb strings.Builder
 	if multi {
 		sb.WriteString("/*")
-		s.feat["multi"] = true
 	} else {
 		sb.WriteString("//")
+	}
+	if n.bare {
+		sb.WriteString(bl())
+		if s.nr == nil {
+			return "", multi
+		}
+		t := bareNotes[s.nr.Intn(len(bareNotes))]
+		if multi {
+			t += s.nblanks(true)
+			s.noteOf[n] = trimNote(t)
+			t += "*/"
+			s.feat["note-only-multi"] = true
+		} else {
+			t += s.nblanks(true)
+			s.noteOf[n] = trimNote(cutInline(t))
+			s.feat["note-only-inline"] = true
+		}
+		sb.WriteString(t)
+		return sb.String(), multi
+	}
+	if multi {
+		s.feat["multi"] = true
+	} else {
 		s.feat["inline"] = true
 	}
 	sb.WriteString(bl() + "{")
@@ -239,15 +368,8 @@ func (s *style) annText(a *ann) (string, bool) {
 		sb.WriteString(bl())
 	}
 	sb.WriteString("}")
-	if a.note != "" {
-		sb.WriteString(bl() + "-" + s.sp() + a.note)
-		s.feat["note"] = true
-		if multi {
-			sb.WriteString(s.sp())
-		}
-	} else {
-		sb.WriteString(bl())
-	}
+	sb.WriteString(bl())
+	sb.WriteString(s.noteText(n, multi))
 	if multi {
 		sb.WriteString("*/")
 	}
@@ -260,11 +382,11 @@ func (s *style) print(n *node, depth int, sep string, sb *strings.Builder) {
 	r := s.r
 	scalarTail := func() {
 		// annotation before or behind the separator
-		if n.an == nil {
+		if n.an == nil && !n.bare {
 			sb.WriteString(s.sp() + sep)
 			return
 		}
-		t, multi := s.annText(n.an)
+		t, multi := s.annText(n)
 		if sep != "" && r.Intn(2) == 0 {
 			sb.WriteString(s.sp() + sep + s.sp() + t)
 			s.feat["behind-comma"] = true
@@ -290,8 +412,8 @@ func (s *style) print(n *node, depth int, sep string, sb *strings.Builder) {
 		}
 		sb.WriteString(open)
 		inlineOpen := false
-		if n.an != nil {
-			t, multi := s.annText(n.an)
+		if n.an != nil || n.bare {
+			t, multi := s.annText(n)
 			sb.WriteString(s.sp() + t)
 			inlineOpen = !multi
 		}
@@ -318,8 +440,15 @@ func (s *style) print(n *node, depth int, sep string, sb *strings.Builder) {
 	}
 }
 
-func render(r *rand.Rand, root *node) (string, map[string]bool) {
-	s := newStyle(r)
+// render: one surface form. `seed` fixes the layout, `noteSeed` the notes (0: no notes at all, the rest of the text
+// as with any other noteSeed).
+func render(seed, noteSeed int64, root *node) (string, *style) {
+	r := rand.New(rand.NewSource(seed))
+	var nr *rand.Rand
+	if noteSeed != 0 {
+		nr = rand.New(rand.NewSource(noteSeed))
+	}
+	s := newStyle(r, nr)
 	var sb strings.Builder
 	if r.Intn(3) == 0 {
 		sb.WriteString(s.brk(0))
@@ -328,12 +457,99 @@ func render(r *rand.Rand, root *node) (string, map[string]bool) {
 	if r.Intn(2) == 0 {
 		sb.WriteString(s.brk(0))
 	}
-	return sb.String(), s.feat
+	return sb.String(), s
+}
+
+// markBare: un-annotated nodes that carry a note-only annotation in the forms
+func markBare(r *rand.Rand, n *node, p int) int {
+	c := 0
+	if n.an == nil && r.Intn(100) < p {
+		n.bare = true
+		c = 1
+	}
+	for _, k := range n.kids {
+		c += markBare(r, k, p)
+	}
+	return c
+}
+
+// wantNotes: the Comment fields in pre-order, as the written notes of a form denote them
+func wantNotes(n *node, s *style, out *[]string) {
+	*out = append(*out, hxe(s.noteOf[n]))
+	for _, k := range n.kids {
+		wantNotes(k, s, out)
+	}
+}
+
+// ---- documents ----
+
+var altScalars = []string{"0", "-1", "1000", "7", "1.5", "0.123", "\"\"", "\"zzzzzzzzzz\"", "\"x\"", "true", "false", "null", "[]", "{}", "[1]"}
+
+// docOf: the value of the tree (p = 0) or a neighbour of it: every node is mutated with probability p percent (a scalar
+// replaced, an item / member dropped, added, doubled, the members reversed)
+func docOf(r *rand.Rand, n *node, p int) string {
+	mut := p > 0 && r.Intn(100) < p
+	switch n.kind {
+	case "arr", "obj":
+		var parts []string
+		for i, k := range n.kids {
+			d := docOf(r, k, p)
+			if n.kind == "obj" {
+				d = "\"" + n.keys[i] + "\":" + d
+			}
+			parts = append(parts, d)
+		}
+		if mut {
+			switch r.Intn(5) {
+			case 0:
+				if len(parts) > 0 {
+					i := r.Intn(len(parts))
+					parts = append(parts[:i:i], parts[i+1:]...)
+				}
+			case 1:
+				if n.kind == "obj" {
+					parts = append(parts, "\"zz\":"+altScalars[r.Intn(len(altScalars))])
+				} else {
+					parts = append(parts, altScalars[r.Intn(len(altScalars))])
+				}
+			case 2:
+				for i, j := 0, len(parts)-1; i < j; i, j = i+1, j-1 {
+					parts[i], parts[j] = parts[j], parts[i]
+				}
+			case 3:
+				return altScalars[r.Intn(len(altScalars))]
+			default:
+				if n.kind == "arr" && len(parts) > 0 {
+					parts = append(parts, parts[len(parts)-1])
+				} else {
+					parts = nil
+				}
+			}
+		}
+		if n.kind == "obj" {
+			return "{" + strings.Join(parts, ",") + "}"
+		}
+		return "[" + strings.Join(parts, ",") + "]"
+	}
+	if mut {
+		return altScalars[r.Intn(len(altScalars))]
+	}
+	return n.tok
 }
 
 // ---- the real library ----
 
-func dump(n jlib.ASTNode, isChildOfObject bool) string {
+func dump(n jlib.ASTNode, isChildOfObject bool) string { return dumpN(n, isChildOfObject, true) }
+
+// astNotes: the Comment fields in pre-order
+func astNotes(n jlib.ASTNode, out *[]string) {
+	*out = append(*out, hxe(n.Comment))
+	for _, c := range n.Children {
+		astNotes(c, out)
+	}
+}
+
+func dumpN(n jlib.ASTNode, isChildOfObject, notes bool) string {
 	var sb strings.Builder
 	sb.WriteByte('(')
 	switch n.TokenType {
@@ -367,12 +583,12 @@ func dump(n jlib.ASTNode, isChildOfObject bool) string {
 		})
 	}
 	sb.WriteString(" r=[" + strings.Join(names, ",") + "]")
-	if n.Comment != "" {
+	if notes && n.Comment != "" {
 		fmt.Fprintf(&sb, " c=%s", hx(n.Comment))
 	}
 	for _, c := range n.Children {
 		sb.WriteByte(' ')
-		sb.WriteString(dump(c, n.TokenType == jlib.TokenTypeObject))
+		sb.WriteString(dumpN(c, n.TokenType == jlib.TokenTypeObject, notes))
 	}
 	sb.WriteByte(')')
 	return sb.String()
@@ -380,9 +596,15 @@ func dump(n jlib.ASTNode, isChildOfObject bool) string {
 
 var loaderCodes = map[int]bool{402: true, 801: true, 802: true, 803: true, 804: true, 301: true, 302: true, 303: true, 304: true, 701: true}
 
-// realAST: canonical tree, "ERR code pos" (errors of the scanner / loader classes), or "" (another error: outside the loader model)
+// realAST: canonical tree, "ERR code pos" (errors of the scanner / loader classes), or "X …" (another error: outside the loader model)
 func realAST(text string) string {
-	return vh.Recover(func() string {
+	full, _, _ := realASTs(text)
+	return full
+}
+
+// realASTs: realAST with the notes, without them (= full when it is no tree), and the Comment fields in pre-order
+func realASTs(text string) (full, bare, notes string) {
+	full = vh.Recover(func() string {
 		s := jschema.New("s", text)
 		ast, err := s.GetAST()
 		if err != nil {
@@ -398,7 +620,41 @@ func realAST(text string) string {
 		if ast.TokenType == "" && len(ast.Children) == 0 && ast.Value == "" {
 			return "EMPTY"
 		}
+		bare = dumpN(ast, false, false)
+		var ns []string
+		astNotes(ast, &ns)
+		notes = strings.Join(ns, ",")
 		return dump(ast, false)
+	})
+	if !strings.HasPrefix(full, "(") {
+		bare, notes = full, ""
+		if strings.HasPrefix(full, "ERR") { // the position belongs to the spelling
+			bare = strings.Join(strings.Fields(full)[:2], " ")
+		}
+	}
+	return
+}
+
+func realValidate(text, doc string) string {
+	return vh.Recover(func() string {
+		if err := jschema.New("s", text).Validate(jdoc.New("doc", doc)); err != nil {
+			return "REJ"
+		}
+		return "ACC"
+	})
+}
+
+func realExample(text string) string {
+	return vh.Recover(func() string {
+		b, err := jschema.New("s", text).Example()
+		if err != nil {
+			var pe jlib.ParsingError
+			if stderrors.As(err, &pe) {
+				return fmt.Sprintf("ERR %d", pe.ErrCode())
+			}
+			return "ERR ?"
+		}
+		return "OK " + string(b)
 	})
 }
 
@@ -417,7 +673,7 @@ func realCheck(text string) string {
 }
 
 func Run(args []string) {
-	rep := vh.NewReport("c13-tree", "annotated trees (depth <= 3, width <= 3, every node annotated with probability 0/50/80/100 %: rule object with 0-3 literal rules, note in a third) printed in two random surface forms each (inline / multi-line per annotation, before / behind the comma, notes, quoted / bare rule names, trailing comma, LF / CRLF / CR / mixed line ends, indentation, # and ### comments): real GetAST (rule names and VALUES, notes, keys, values) and real Check verdict equal across the forms, loader model (driver loadv) = real GetAST for both forms; malformed stream: 1-3 byte mutations of the forms, model = real tree or error; nontrivial = at least one annotated node; stream atree (x/c13tree/atree.go): trees printed WITH layout in the grammar of the Lean type AT.ATree, driver `atree`: the table the tree DENOTES (ATree.table, the spec of C13_annotated_tree_loads) = loader model = real GetAST whenever the decidable line discipline AT.lineOK holds, loader model = real GetAST always")
+	rep := vh.NewReport("c13-tree", "annotated trees (depth <= 3, width <= 3, every node annotated with probability 0/50/80/100 %: rule object with 0-3 literal rules, note in a third) printed in three surface forms each: A and B independent (inline / multi-line per annotation, before / behind the comma, quoted / bare rule names, trailing comma, LF / CRLF / CR / mixed line ends, indentation, # and ### comments; per annotation and form its own NOTE spelling: none, `-` only, `-` + blanks, plain text, text holding - // /* { } \" # * UTF-8, in the multi-line form also a note on a later line / over several lines / of line breaks only; note-only annotations `// text`, `/* text */` on 0/10/25 % of the un-annotated nodes), A0 = A with every note removed and nothing else changed; A0 against A and B against A at property level: real GetAST with the Comment fields dropped (rule names and VALUES, keys, values), real Check verdict, Validate verdicts of 3 documents (the tree's value, two neighbours: scalars replaced, items / members dropped, added, doubled, reversed), bytes of Example(); Comment fields = written notes, trimmed (correspondence level); loader model (driver loadv) = real GetAST for A and B; malformed stream: 1-3 byte mutations of the forms, model = real tree or error; nontrivial = at least one annotation (with rules or note-only); stream atree (x/c13tree/atree.go): trees printed WITH layout in the grammar of the Lean type AT.ATree, driver `atree`: the table the tree DENOTES (ATree.table, the spec of C13_annotated_tree_loads) = loader model = real GetAST whenever the decidable line discipline AT.lineOK holds, loader model = real GetAST always")
 	r := vh.NewRand(1313)
 	n := vh.Pick(40000, 1200000)
 	alphabet := []byte("{}[]:,\"\\/#@*|-_01. \n\rtn")
@@ -427,54 +683,167 @@ func Run(args []string) {
 		impl = append(impl, got)
 		inputs = append(inputs, fmt.Sprintf("%q", text))
 	}
-	for i := 0; i < n; i++ {
-		pAnn := []int{0, 50, 50, 80, 80, 100}[r.Intn(6)]
-		root := gen(r, []int{0, 1, 2, 2, 3, 3}[r.Intn(6)], false, pAnn)
-		na := countAnn(root)
-		t1, f1 := render(r, root)
-		t2, f2 := render(r, root)
-		for k := range f1 {
-			rep.Stat("form_" + k)
+	type obs struct {
+		text, full, bare, notes, check, ex string
+		val                                []string
+	}
+	observe := func(text string, docs []string) obs {
+		o := obs{text: text}
+		o.full, o.bare, o.notes = realASTs(text)
+		o.check = realCheck(text)
+		if o.check == "OK" {
+			for _, d := range docs {
+				o.val = append(o.val, realValidate(text, d))
+			}
+			o.ex = realExample(text)
 		}
-		for k := range f2 {
-			rep.Stat("form_" + k)
+		return o
+	}
+	// across: the observables C13 speaks of, form y against form x of the same tree
+	across := func(suffix, how string, x, y obs, docs []string) {
+		in := fmt.Sprintf("%q vs %q", x.text, y.text)
+		if x.bare != y.bare {
+			rep.AddDiff(vh.Diff{Component: "ast-" + suffix, Input: in, Impl: x.bare, Model: y.bare, Level: "property",
+				Note: "GetAST with the Comment fields dropped differs between two spellings of one annotated tree (" + how + ")"})
 		}
-		rep.Stat(fmt.Sprintf("annotated_nodes_%d", min(na, 5)))
-		a1, a2 := realAST(t1), realAST(t2)
-		c1, c2 := realCheck(t1), realCheck(t2)
-		rep.Case(t1+"\x00"+t2, na > 0)
-		rep.Stat("check_" + strings.ReplaceAll(c1, " ", "_"))
-		if a1 != a2 {
-			rep.AddDiff(vh.Diff{Component: "ast-across-forms", Input: fmt.Sprintf("%q vs %q", t1, t2), Impl: a1, Model: a2, Level: "property"})
+		if x.check != y.check {
+			rep.AddDiff(vh.Diff{Component: "check-" + suffix, Input: in, Impl: x.check, Model: y.check, Level: "property",
+				Note: "Check verdict differs between two spellings of one annotated tree (" + how + ")"})
+			return
 		}
-		if c1 != c2 {
-			rep.AddDiff(vh.Diff{Component: "check-across-forms", Input: fmt.Sprintf("%q vs %q", t1, t2), Impl: c1, Model: c2, Level: "property"})
+		if x.check != "OK" {
+			return
 		}
-		if strings.HasPrefix(a1, "X ") {
-			rep.Stat("getast_error_behind_loader")
+		for k, d := range docs {
+			if x.val[k] != y.val[k] {
+				rep.AddDiff(vh.Diff{Component: "validate-" + suffix, Input: in + fmt.Sprintf(" document %q", d), Impl: x.val[k], Model: y.val[k], Level: "property",
+					Note: "Validate verdict of one document differs between two spellings of one annotated tree (" + how + ")"})
+				break
+			}
 		}
-		if strings.HasPrefix(a1, "ERR") {
-			// the generator prints forms the library accepts: an error here is a finding of its own
-			rep.AddDiff(vh.Diff{Component: "generated-form-rejected", Input: fmt.Sprintf("%q", t1), Impl: a1, Model: "tree", Level: "property"})
+		if x.ex != y.ex {
+			rep.AddDiff(vh.Diff{Component: "example-" + suffix, Input: in, Impl: x.ex, Model: y.ex, Level: "property",
+				Note: "Example() differs between two spellings of one annotated tree (" + how + ")"})
 		}
-		if !strings.HasPrefix(a1, "X ") {
-			ask(t1, a1)
+	}
+	type kase struct {
+		root          *node
+		na, nb        int
+		t1, t0, t2, m string
+		s1, s2        *style
+		docs          []string
+		o1, o0, o2    obs
+		am            string
+	}
+	const chunk = 8192
+	for base := 0; base < n; base += chunk {
+		var cs []*kase
+		for i := base; i < n && i < base+chunk; i++ {
+			pAnn := []int{0, 50, 50, 80, 80, 100}[r.Intn(6)]
+			c := &kase{root: gen(r, []int{0, 1, 2, 2, 3, 3}[r.Intn(6)], false, pAnn)}
+			c.nb = markBare(r, c.root, []int{0, 10, 25}[r.Intn(3)])
+			c.na = countAnn(c.root)
+			seedA, seedB := r.Int63(), r.Int63()
+			c.t1, c.s1 = render(seedA, 1+r.Int63(), c.root)
+			c.t0, _ = render(seedA, 0, c.root)
+			c.t2, c.s2 = render(seedB, 1+r.Int63(), c.root)
+			c.docs = []string{docOf(r, c.root, 0), docOf(r, c.root, 15), docOf(r, c.root, 35)}
+			if i%3 == 0 {
+				c.m = string(vh.Mutate(r, []byte(c.t1), alphabet))
+			}
+			cs = append(cs, c)
 		}
-		if !strings.HasPrefix(a2, "X ") {
-			ask(t2, a2)
-		}
-		if i%3 == 0 {
-			m := string(vh.Mutate(r, []byte(t1), alphabet))
-			am := realAST(m)
-			if strings.HasPrefix(am, "X ") {
-				rep.Stat("mutant_outside_model")
-			} else {
-				if strings.HasPrefix(am, "ERR") {
-					rep.Stat("mutant_" + strings.Fields(am)[1])
-				} else {
-					rep.Stat("mutant_tree")
+		// the library calls: independent schema objects, in parallel
+		var wg sync.WaitGroup
+		next := int64(-1)
+		for w := 0; w < 16; w++ {
+			wg.Add(1)
+			go func() {
+				defer wg.Done()
+				for {
+					k := int(atomic.AddInt64(&next, 1))
+					if k >= len(cs) {
+						return
+					}
+					c := cs[k]
+					c.o1, c.o0, c.o2 = observe(c.t1, c.docs), observe(c.t0, c.docs), observe(c.t2, c.docs)
+					if c.m != "" {
+						c.am = realAST(c.m)
+					}
 				}
-				ask(m, am)
+			}()
+		}
+		wg.Wait()
+		for _, c := range cs {
+			root, na, nb, docs := c.root, c.na, c.nb, c.docs
+			t1, t0, t2, s1, s2 := c.t1, c.t0, c.t2, c.s1, c.s2
+			o1, o0, o2 := c.o1, c.o0, c.o2
+			for k := range s1.feat {
+				rep.Stat("form_" + k)
+			}
+			for k := range s2.feat {
+				rep.Stat("form_" + k)
+			}
+			rep.Stat(fmt.Sprintf("annotated_nodes_%d", min(na, 5)))
+			if nb > 0 {
+				rep.Stat("tree_with_note_only_annotation")
+			}
+			a1, a2 := o1.full, o2.full
+			c1 := o1.check
+			rep.Case(t1+"\x00"+t2, na+nb > 0)
+			rep.Stat("check_" + strings.ReplaceAll(c1, " ", "_"))
+			if t0 != t1 {
+				rep.Stat("pair_notes_removed")
+				across("notes-removed", "the second is the first with every annotation note removed", o1, o0, docs)
+			} else {
+				rep.Stat("pair_notes_removed_identical")
+			}
+			across("across-forms", "independent layouts, annotation forms and notes", o1, o2, docs)
+			if c1 == "OK" {
+				for k := range docs {
+					rep.Stat("validate_" + o1.val[k])
+				}
+			}
+			// the Comment fields against the written notes (the property compares the AST comments aside)
+			for _, fo := range []struct {
+				o obs
+				s *style
+			}{{o1, s1}, {o2, s2}} {
+				if !strings.HasPrefix(fo.o.full, "(") {
+					continue
+				}
+				var ws []string
+				wantNotes(root, fo.s, &ws)
+				if w := strings.Join(ws, ","); w != fo.o.notes {
+					rep.AddDiff(vh.Diff{Component: "notes-vs-written", Input: fmt.Sprintf("%q", fo.o.text), Impl: fo.o.notes, Model: w, Level: "correspondence",
+						Note: "Comment fields of GetAST in pre-order (hex, - = none) differ from the written notes, trimmed"})
+				}
+			}
+			if strings.HasPrefix(a1, "X ") {
+				rep.Stat("getast_error_behind_loader")
+			}
+			if strings.HasPrefix(a1, "ERR") {
+				// the generator prints forms the library accepts: an error here is a finding of its own
+				rep.AddDiff(vh.Diff{Component: "generated-form-rejected", Input: fmt.Sprintf("%q", t1), Impl: a1, Model: "tree", Level: "property"})
+			}
+			if !strings.HasPrefix(a1, "X ") {
+				ask(t1, a1)
+			}
+			if !strings.HasPrefix(a2, "X ") {
+				ask(t2, a2)
+			}
+			if c.m != "" {
+				am := c.am
+				if strings.HasPrefix(am, "X ") {
+					rep.Stat("mutant_outside_model")
+				} else {
+					if strings.HasPrefix(am, "ERR") {
+						rep.Stat("mutant_" + strings.Fields(am)[1])
+					} else {
+						rep.Stat("mutant_tree")
+					}
+					ask(c.m, am)
+				}
 			}
 		}
 	}
